@@ -56,6 +56,21 @@ def reports(bt, b, ctx, rd, tag):
         if nm in ("weights", "security_weights", "positions") and not finite_series(v.fillna(0.0) if nm != "positions" else v):
             if not np.all(np.isfinite(np.asarray(v.fillna(0.0).values, dtype=float))):
                 ctx.violation("C10/non-finite-report:" + nm, "%s: %s contains inf" % (tag, nm), rd)
+        if nm in ("weights", "security_weights"):
+            # a weight may be undefined (NaN) only where the denominator is zero or undefined; everywhere else it is a finite number
+            try:
+                den = np.asarray((root.notional_values if root.fixed_income else root.values).values, dtype=float)
+                arr = np.asarray(v.values, dtype=float)
+                if arr.ndim == 2 and arr.shape[0] == len(den):
+                    ok_rows = np.isfinite(den) & (den != 0)
+                    bad = np.argwhere(~np.isfinite(arr[ok_rows]))
+                    if len(bad):
+                        i, j = bad[0]
+                        ctx.violation("C10/non-finite-report:" + nm + ":defined-denominator",
+                                      "%s: %s has a non-finite entry in column %s on a date where the root's %s is finite and non-zero"
+                                      % (tag, nm, list(v.columns)[j], "notional" if root.fixed_income else "value"), rd)
+            except Exception:
+                pass
 
 
 def run_wellformed(ctx, bt, spec):
